@@ -26,6 +26,12 @@ EE(id, issuer, signer, ekus, poison, exts) ==
    ski |-> "none", aki |-> signer,
    ekus |-> ekus, poison |-> poison, notAfter |-> 4, exts |-> exts]
 
+\* the NotAfter dimension: one end-entity certificate under I1 expiring at every instant a window bound may name (W4
+\* expires with the other leaves, W5 with the CA certificates); MCChainAdmissionWin.tla crosses them with every window
+WinTicks == 1..8
+WinLeafId(k) == "W" \o ToString(k)
+WinLeaves == {[EE(WinLeafId(k), "I1", "kI1", {"server"}, "none", {}) EXCEPT !.notAfter = k] : k \in WinTicks}
+
 Genuine == {
   CAcert("R1",  "R1", "R1", "kR1", "kR1"),                 \* root
   CAcert("R2",  "R2", "R2", "kR2", "kR2"),                 \* second root
@@ -59,21 +65,26 @@ Genuine == {
   EE("LEV", "I2", "kI2", {"server"}, "empty", {}),
   [EE("LCA", "I1", "kI1", {}, "none", {}) EXCEPT !.isCA = TRUE, !.ski = "kLCA"],     \* a CA certificate submitted as leaf
   [EE("LL",  "L1", "kL1", {"server"}, "none", {}) EXCEPT !.aki = "none"]   \* signed with the key of L1, which is not a CA (and has no key identifier)
-}
+} \cup WinLeaves
 \* same fields, signature verifies under no key
 Twin(c) == [c EXCEPT !.id = c.id \o "~f", !.signer = "bad"]
 \* bytes that do not decode
 Bad == [id |-> "BAD", parses |-> FALSE, subj |-> "", issuer |-> "", key |-> "", signer |-> "", isCA |-> FALSE,
         ski |-> "none", aki |-> "none", ekus |-> {}, poison |-> "none", notAfter |-> 0, exts |-> {}]
 ASSUME KeyIdsAgree(Genuine)
-AllCerts == Genuine \cup {Twin(c) : c \in Genuine} \cup {Bad}
+\* every certificate of the hierarchy in every encoding, followed by every trailer (ChainAdmission: Form); the DER
+\* form followed by nothing is the certificate itself
+FormsOf(c) == {Form(c, f[1], f[2]) : f \in (Encs \X Trailers) \ {<<"der", "none">>}}
+FormCerts == UNION {FormsOf(c) : c \in Genuine}
+AllCerts == Genuine \cup {Twin(c) : c \in Genuine} \cup {Bad} \cup FormCerts
 GenuineIds == {c.id : c \in Genuine}
 CertIds == {c.id : c \in AllCerts}
 Cert == [i \in CertIds |-> CHOOSE c \in AllCerts : c.id = i]
 Recs(s) == [i \in 1..Len(s) |-> Cert[s[i]]]
 Ids(p) == [i \in 1..Len(p) |-> p[i].id]
 
-\* which certificates a log trusts (TI: also an intermediate; TB, T1B: the re-issued root; TN: the renamed root only).
+\* which certificates a log trusts (TI: also an intermediate; TB, T1B: the re-issued root; TN: the renamed root only;
+\* TS: the root R1 in an encoding with a padded INTEGER - another certificate with R1's name and key).
 \* Decoy pools: a root under which chains are in order next to decoys that the candidate lookup finds first -
 \*   TD1: under R1, the keys of I1, I2 and P under other names (every certificate below R1 hits one by identifier)
 \*   TD2: under R2, R1's key under another name (hit by identifier from I1; the path goes on through the submitted R1x)
@@ -81,11 +92,13 @@ Ids(p) == [i \in 1..Len(p) |-> p[i].id]
 \*   TD4: under R2, all of them
 TSets == [T1 |-> {"R1"}, T2 |-> {"R2"}, T12 |-> {"R1", "R2"}, TI |-> {"R1", "I1"}, TB |-> {"R1b"}, T1B |-> {"R1", "R1b"},
           TN |-> {"R1n"},
+          TS |-> {FormId("R1", "serialPad", "none")},       \* the root as a roots file holds it with a padded serial number
           TD1 |-> {"R1", "I1n", "I2n", "Pn"}, TD2 |-> {"R2", "R1n"}, TD3 |-> {"R2", "R1k", "I1k"},
           TD4 |-> {"R2", "R1n", "R1k", "I1n", "I1k", "I2n"}]
 TNames == DOMAIN TSets
 DecoyPools == {"TD1", "TD2", "TD3", "TD4"}
 PlainPools == TNames \ DecoyPools
+ClassicPools == PlainPools \ {"TS"}
 TRecs(n) == {Cert[i] : i \in TSets[n]}
 
 (* ---------- chains ---------- *)
@@ -119,6 +132,13 @@ Perturb(s) ==
   \cup {Pt("forge", [s EXCEPT ![i] = s[i] \o "~f"]) : i \in {j \in 1..Len(s) : s[j] \in GenuineIds}}
   \cup {Pt("garble", [s EXCEPT ![i] = "BAD"]) : i \in 1..Len(s)}
 
+\* one entry of the submission in another form: the same certificate in another encoding and / or followed by a trailer
+\* (every position, every encoding x trailer but the certificate itself).  The tag names the class of the entry.
+FormTag(e, t) == "entry:" \o e \o "+" \o t
+FormPerturb(s) ==
+  {Pt(FormTag(f[1], f[2]), [s EXCEPT ![i] = FormId(s[i], f[1], f[2])]) :
+      i \in {j \in 1..Len(s) : s[j] \in GenuineIds}, f \in (Encs \X Trailers) \ {<<"der", "none">>}}
+
 \* chains submitted as they are only (their perturbations would repeat those of the LNC / LNN chains): the further
 \* malformed-poison leaves
 PlainBases == {<<l, "I2", "I1", "R1">> : l \in {"LNT", "LNV", "LWT", "LLF", "LEV"}}
@@ -130,9 +150,17 @@ Ch2 == IF Depth >= 2 THEN UNION {{q.ch : q \in Perturb(c)} : c \in {p.ch : p \in
 \* every chain x every plain pool; the decoy pools with the chains as submitted and the perturbations that keep the
 \* length or shorten (Depth 2: all single perturbations)
 DecoyTags == IF Depth >= 2 THEN {"drop", "swap", "dup", "insert", "forge", "garble"} ELSE {"drop", "swap", "forge"}
-Cases == {[ch |-> p.ch, tags |-> p.tags, T |-> t] : p \in P0 \cup P1, t \in PlainPools}
+\* the pools the forms are submitted to: every form under R1; the encodings without a trailer (the forms that may be read)
+\* also under R2, under R1 and a trusted intermediate, under the padded root
+FormPools == {"T1", "T2", "TI", "TS"}
+PF == UNION {{[tags |-> <<q.tag>>, ch |-> q.ch] : q \in FormPerturb(b)} : b \in Bases}
+PFBare == {p \in PF : \E e \in Encs : p.tags[1] = FormTag(e, "none")}
+Cases == {[ch |-> p.ch, tags |-> p.tags, T |-> t] : p \in P0 \cup P1, t \in ClassicPools}
+         \cup {[ch |-> p.ch, tags |-> p.tags, T |-> "TS"] : p \in P0 \cup {q \in P1 : q.tags[1] \in {"drop", "swap", "forge"}}}
+         \cup {[ch |-> p.ch, tags |-> p.tags, T |-> "T1"] : p \in PF}
+         \cup {[ch |-> p.ch, tags |-> p.tags, T |-> t] : p \in PFBare, t \in FormPools}
          \cup {[ch |-> p.ch, tags |-> p.tags, T |-> t] : p \in P0 \cup {q \in P1 : q.tags[1] \in DecoyTags}, t \in DecoyPools}
-         \cup {[ch |-> c, tags |-> <<"two">>, T |-> t] : c \in Ch2, t \in PlainPools}
+         \cup {[ch |-> c, tags |-> <<"two">>, T |-> t] : c \in Ch2, t \in ClassicPools}
 
 (* ---------- the option table ---------- *)
 N == NoBound
@@ -158,6 +186,42 @@ OptRow(k) == LET o == Opt(k) IN
   [start |-> IF o.start.p THEN o.start.v ELSE -1, limit |-> IF o.limit.p THEN o.limit.v ELSE -1,
    rejExp |-> o.rejExp, rejUnexp |-> o.rejUnexp, now |-> o.now, onlyCA |-> o.onlyCA, ekus |-> o.ekus, rejExts |-> o.rejExts]
 ASSUME PrintT(<<"OPTS", ToJson([k \in 1..NOpts |-> OptRow(k)])>>)
+(* ---------- frames: where on the line of real instants the model's instants lie ---------- *)
+\* Admission depends on the ORDER of NotAfter, the window bounds and "now" only (Temporal: any strictly monotone map
+\* into real instants is a materialization).  The code compares real instants, and a certificate may carry any second
+\* of the years 0000..9999 - far more than a 64-bit count of nanoseconds since 1970 can hold (1677-09-21T00:12:44Z ..
+\* 2262-04-11T23:47:16Z).  A FRAME places the instants 0..9 on landmarks of that line, not necessarily at equal
+\* distances: the harness must realize every case in every frame (clock = where the wall clock lies: a log reads it).
+\* TimeLine lists the landmarks in their order; "Now" stands for the wall clock of the run.
+TimeLine == << "Y0500", "Y1000", "Y1500", "Y1600", "NanoFirst-1s", "NanoFirst", "Y1800", "UTCFirst-1s", "UTCFirst",
+               "P0", "P1", "P2", "P3", "P4", "P5", "P6", "P7", "P8", "P9",          \* 1995-06-01 + k hours
+               "Now",
+               "GenFirst-1s", "GenFirst", "Y2100",
+               "F0", "F1", "F2", "F3", "F4", "F5", "F6", "F7", "F8", "F9",          \* 2120-01-01 + k hours
+               "NanoLast-1s", "NanoLast", "NanoLast+1s", "Y2300", "Last-1s", "Last", "Beyond" >>
+Pos(l) == CHOOSE i \in 1..Len(TimeLine) : TimeLine[i] = l
+Frames == [
+  past    |-> [clock |-> "after",  at |-> <<"P0", "P1", "P2", "P3", "P4", "P5", "P6", "P7", "P8", "P9">>],
+  future  |-> [clock |-> "before", at |-> <<"F0", "F1", "F2", "F3", "F4", "F5", "F6", "F7", "F8", "F9">>],
+  \* the last second a 64-bit nanosecond count holds lies between the leaves (4) and the CA certificates (5); above it
+  \* 2300 and the last instant a certificate can carry (RFC 5280 s4.1.2.5: "no well-defined expiration"); below it the
+  \* last UTCTime second, the first GeneralizedTime one, 2100
+  far     |-> [clock |-> "before", at |-> <<"GenFirst-1s", "GenFirst", "Y2100", "NanoLast-1s", "NanoLast", "NanoLast+1s", "Y2300", "Last-1s", "Last", "Beyond">>],
+  \* the first such second lies between 4 and 5; above it 1800 and the switch to UTCTime (1950)
+  ancient |-> [clock |-> "after",  at |-> <<"Y0500", "Y1000", "Y1500", "Y1600", "NanoFirst-1s", "NanoFirst", "Y1800", "UTCFirst-1s", "UTCFirst", "P0">>] ]
+FrameNames == DOMAIN Frames
+\* every frame is strictly monotone, and the wall clock lies before every NotAfter (instants 1..8) or after all of them
+ASSUME \A f \in FrameNames : /\ Len(Frames[f].at) = 10
+                              /\ \A i \in 1..9 : Pos(Frames[f].at[i]) < Pos(Frames[f].at[i + 1])
+                              /\ IF Frames[f].clock = "before" THEN Pos("Now") < Pos(Frames[f].at[2]) ELSE Pos(Frames[f].at[9]) < Pos("Now")
+\* instant k of the model in frame f, as a position on the line
+Real(f, k) == Pos(Frames[f].at[k + 1])
+RealBound(f, b) == IF b.p THEN At(Real(f, b.v)) ELSE NoBound
+\* (law) the window judges alike in every frame
+FrameFree(t, start, limit) == \A f \in FrameNames : InWindow(Real(f, t), RealBound(f, start), RealBound(f, limit)) = InWindow(t, start, limit)
+ASSUME PrintT(<<"FRAMES", ToJson([frames |-> Frames, line |-> TimeLine])>>)
+ASSUME PrintT(<<"FORMS", ToJson({[id |-> FormId(c.id, f[1], f[2]), base |-> c.id, enc |-> f[1], trailer |-> f[2]] :
+                                    c \in Genuine, f \in (Encs \X Trailers) \ {<<"der", "none">>}})>>)
 \* hierarchy as the harness must materialize it
 ASSUME PrintT(<<"CERTS", ToJson(Genuine)>>)
 ASSUME PrintT(<<"TRUST", ToJson(TSets)>>)
